@@ -204,7 +204,8 @@ def run(phase, cases, ctx):
                 samples.append({'chain': case['chain'], 'result': xstate.describe(env, res_ops), 'firings': [r[0] for r in rec.log]})
         # (1) terminality with the real rules
         try:
-            succ = [s for s in xstate.successors(env, res_ops) if s[0] != 'reduce-operand']
+            succ = [s for s in xstate.successors(env, res_ops) if s[0] != 'reduce-operand'
+                    and not (s[0] == 'IdentityRule' and len(res_ops) == 1)]  # a lone identity IS the normal form of I
         except P.LibError as e:
             succ = []
             violations.append({'kind': 'result-unusable', 'case': case, 'detail': str(e)})
